@@ -9,6 +9,7 @@ op  = ["reset"] | ["setup"] (life cycle: Simulator.reset(), setup(<a new model>)
       ["sched", kind, t, fl, prio, tag, holder, body] | ["cancel", tag] | ["drop", holder]
     | ["until", t, fl] | ["for", d, fl] | ["next"] | ["peek", n]
 act = ["sched", ...same...] | ["cancel", tag] | ["drop", holder] | ["raise"] (the user callable raises UserBoom: ARaise in the model)
+      | ["running", bool] (user code sets model.running; no effect on a simulator: nothing in the model)
 kind in now|rel|abs|tick, prio in L|D|H.  Tags are unique per case; model.step events show as tag -1.
 
 User code: an event's callable is the bound method `fire` of a Holder object (even holder ids; WeakMethod) or a plain
@@ -36,6 +37,11 @@ E_USER = 7
 
 class UserBoom(Exception):
     """raised by the user code of an event / of model.step (act ["raise"])"""
+
+
+class UserBoomIndex(UserBoom, IndexError):
+    """the same, but also an IndexError (what random.choice([]) or [].pop() in user code raise): the simulators use
+    `except IndexError` for "the event list is empty" and must not mistake the user's exception for that"""
 PVAL = {"L": 10, "D": 5, "H": 1}
 PNAME = {"L": "PLow", "D": "PDefault", "H": "PHigh"}
 KNAME = {"now": "KNow", "rel": "KRel", "abs": "KAbs", "tick": "KTick"}
@@ -188,7 +194,12 @@ class _Env:
             elif a[0] == "drop":
                 self.do_drop(a[1])
             elif a[0] == "raise":
-                raise UserBoom()
+                self.ncall += 1
+                raise (UserBoomIndex() if self.ncall % 2 else UserBoom())
+            elif a[0] == "running":
+                # user code sets model.running (Model.run_model / the solara controllers look at it; the simulators do not:
+                # the statement of C15 says model.step runs at EVERY tick) - no effect in the Gallina model, not printed for it
+                self.model.running = bool(a[1])
 
     def do_sched(self, kind, t, fl, prio, tag, h, body):
         if h in self.dropped:
@@ -271,6 +282,8 @@ class _Env:
         self.log = []
         self.atom = []
         k = op[0]
+        if self.ncall % 3 == 0:
+            self.decoy.reset()          # resetting ANOTHER simulator must not disturb this one (class-level id counter)
         self.decoy.schedule_event_absolute(_noop, 1.0)
         self.ncall += 1
         spell = self.ncall % 2
@@ -623,6 +636,9 @@ def oracle(case, recs):
                 # consumed, the clock stays at its time, nothing else is touched (checked below: pending, steps)
                 if not info.get("userexc"):
                     fail(f"C14/{cls}/{k}/user-exception-swallowed", i, f"{op}: the user callable raised but the call returned normally")
+                    if abm and k in ("until", "for") and after[1] * S != after[0]:
+                        fail(f"C15/{cls}/{'run_until' if k == 'until' else 'run_for'}/steps-differ-from-clock", i,
+                             f"{op} returned normally although user code raised: model.steps = {after[1]}, clock = {_d(after[0])}")
                     break
                 if not aborted[0] or pos != len(log):
                     fail(f"C14/{cls}/{k}/continued-after-user-exception", i, f"{op}: user code raised, yet the log goes on: {log[pos:]}")
@@ -789,6 +805,8 @@ def run_impl(case):
             fails.append({"key": f"C15/{CLS[case['cls']]}/chunking/one-piece-run-raised", "op": -1, "what": f"{type(e).__name__}: {e}"})
         if _MODE["float"]:
             return {"obs": [[_obs_int(x) for x in ob] for ob, _ in recs], "failures": fails, "model": False}
+        if case.get("nomodel"):     # too large to print for Coq (hundreds of events): implementation + oracle only
+            return {"obs": [ob[:3] for ob, _ in recs], "failures": fails, "model": False}
         return {"obs": [ob for ob, _ in recs], "failures": fails}
     finally:
         _MODE["float"] = False
@@ -798,7 +816,7 @@ def run_impl(case):
 def coq_act(a):
     if a[0] == "sched":
         _, kind, t, _fl, prio, tag, h, body = a
-        return f"ASched {KNAME[kind]} {L.z(t)} {PNAME[prio]} {L.z(tag)} {L.z(h)} {L.lst([coq_act(x) for x in body])}"
+        return f"ASched {KNAME[kind]} {L.z(t)} {PNAME[prio]} {L.z(tag)} {L.z(h)} {L.lst([coq_act(x) for x in body if x[0] != 'running'])}"
     if a[0] == "cancel":
         return f"ACancel {L.z(a[1])}"
     if a[0] == "raise":
@@ -832,9 +850,9 @@ def coq_xop(op):
 
 
 def coq_case(case):
-    if case.get("float"):   # never evaluated by the model; only printed if a replay file asks for model observations
+    if case.get("float") or case.get("nomodel"):   # never evaluated by the model; only printed if a replay file asks for model observations
         return "{| x_cfg := {| c_abm := false; c_script := [] |}; x_setup := true; x_fuel := 1%nat; x_ops := [] |}"
-    script = L.lst([L.pair(L.z(k), L.lst([coq_act(a) for a in acts])) for k, acts in case.get("script", [])])
+    script = L.lst([L.pair(L.z(k), L.lst([coq_act(a) for a in acts if a[0] != 'running'])) for k, acts in case.get("script", [])])
     cfg = f"{{| c_abm := {L.b(case['cls'] == 'ABM')}; c_script := {script} |}}"
     return (f"{{| x_cfg := {cfg}; x_setup := {L.b(case.get('setup', True))}; x_fuel := {int(case.get('fuel', 300))}%nat; "
             f"x_ops := {L.lst([coq_xop(o) for o in case['ops']])} |}}")
